@@ -1468,7 +1468,11 @@ impl Translator {
                 if s.rest.is_some() {
                     return Err("struct update syntax".into());
                 }
-                let name = s.path.segments.last().unwrap().ident.to_string();
+                let mut name = s.path.segments.last().unwrap().ident.to_string();
+                if name == "Self" {
+                    // `Self { .. }` is the impl's own type
+                    name = cx.tcx.self_struct.clone().ok_or("`Self` outside impl")?;
+                }
                 let info = self.structs.get(&name).ok_or(format!("unknown struct {name}"))?;
                 if info.tuple {
                     return Err("brace literal of tuple struct".into());
@@ -1547,7 +1551,9 @@ impl Translator {
             args.push(self.expr(a, cx)?);
         }
         if segs.len() == 1 {
-            let n = &segs[0];
+            // `Self(..)` constructs the impl's own tuple struct
+            let resolved = if segs[0] == "Self" { cx.tcx.self_struct.clone().unwrap_or_else(|| segs[0].clone()) } else { segs[0].clone() };
+            let n = &resolved;
             if let Some(info) = self.structs.get(n) {
                 if !info.tuple {
                     return Err("call of non-tuple struct".into());
